@@ -30,6 +30,11 @@ import (
 type lineJ struct {
 	Class string `json:"class"`
 	Text  string `json:"text"` // first 120 bytes
+	// over-long lines of the longfile cases: the length of the physical line, the offset of the tail and its first bytes
+	Len     int    `json:"len,omitempty"`
+	TailAt  int    `json:"tail_at,omitempty"`
+	Tail    string `json:"tail,omitempty"`
+	Foreign string `json:"foreign,omitempty"` // the address the tail names (no valid line of the file names it)
 }
 
 type caseJ struct {
@@ -82,10 +87,95 @@ func exclusion(r *hlib.SplitMix64, base uint32, span int) (scan.IPContainer, [][
 	return c, nets
 }
 
-func mkFileCase(caseSeed int64) caseJ {
+// longLine: ONE physical line of more than 64 KiB (outcome LTooLong by construction: the line never fits the 64 KiB
+// token buffer, whatever it holds).  Variants: 64..128 KiB; more than 128 KiB where the bytes after the 131072-byte
+// mark are a well-formed entry for an address outside the file's pool, are garbage, or are themselves longer than
+// 64 KiB; the marks are also missed by a few bytes (a reader that drops the line chunk-wise sees another tail).
+func longLine(r *hlib.SplitMix64, addr, foreign uint32) (tgt.Line, lineJ) {
+	const chunk = 64 * 1024
+	port := 1 + r.Intn(65535)
+	head := func(total int) string {
+		pre := fmt.Sprintf(`{"ip":"%s","port":%d,"pad":"`, tgt.Dotted(addr), port)
+		return pre + strings.Repeat("x", total-len(pre)-2) + `"}`
+	}
+	fport := 1 + r.Intn(65535)
+	entry := fmt.Sprintf(`{"ip":"%s","port":%d}`, tgt.Dotted(foreign), fport)
+	l := tgt.Line{Kind: 1}
+	j := lineJ{}
+	switch r.Intn(6) {
+	case 0: // between one and two buffers
+		l.Class, l.Text = "toolong-64k-128k", head(chunk+64+r.Intn(chunk-200))
+	case 1: // the lost-newline file: an entry boundary exactly at 2 x 64 KiB
+		l.Class, l.Text = "toolong-128k-tail-entry", head(2*chunk)+entry
+		j.TailAt, j.Foreign = 2*chunk, tgt.Dotted(foreign)
+	case 2: // entry boundaries at every multiple of 64 KiB up to 3..5
+		k := 3 + r.Intn(3)
+		l.Class, l.Text = "toolong-multi-tail-entry", head(chunk)
+		for i := 1; i < k; i++ {
+			l.Text += head(chunk)
+		}
+		l.Text += entry
+		j.TailAt, j.Foreign = k*chunk, tgt.Dotted(foreign)
+	case 3: // the tail is garbage
+		l.Class, l.Text = "toolong-128k-tail-garbage", head(2*chunk+1+r.Intn(3000))
+		j.TailAt = 2 * chunk
+	case 4: // the tail is itself longer than one buffer
+		l.Class, l.Text = "toolong-128k-tail-toolong", head(3*chunk+100+r.Intn(chunk))
+		j.TailAt = 2 * chunk
+	default: // an entry boundary a few bytes off the mark
+		l.Class, l.Text = "toolong-128k-tail-offmark", head(2*chunk-8+r.Intn(17))+entry
+		j.TailAt = 2 * chunk
+	}
+	j.Class, j.Text, j.Len = l.Class, l.Text[:120]+"...", len(l.Text)
+	if j.TailAt > 0 {
+		t := l.Text[j.TailAt:]
+		if len(t) > 120 {
+			t = t[:120] + "..."
+		}
+		j.Tail = t
+	}
+	return l, j
+}
+
+// longFile: valid entries, one over-long physical line, more valid entries (and sometimes an ordinary bad one).
+func longFile(r *hlib.SplitMix64, base uint32, span int) ([]tgt.Line, []lineJ) {
+	var ls []tgt.Line
+	var js []lineJ
+	put := func(l tgt.Line) {
+		t := l.Text
+		if len(t) > 120 {
+			t = t[:120] + "..."
+		}
+		ls, js = append(ls, l), append(js, lineJ{Class: l.Class, Text: t})
+	}
+	for i, n := 0, r.Intn(4); i < n; i++ {
+		put(tgt.RandLine(r, tgt.GoodClasses[r.Intn(len(tgt.GoodClasses))], base+uint32(r.Intn(span))))
+	}
+	// an address no valid line names and no exclusion entry covers
+	l, j := longLine(r, base+uint32(r.Intn(span)), base+4096+uint32(r.Intn(64)))
+	ls, js = append(ls, l), append(js, j)
+	for i, n := 0, 1+r.Intn(4); i < n; i++ {
+		put(tgt.RandLine(r, tgt.GoodClasses[r.Intn(len(tgt.GoodClasses))], base+uint32(r.Intn(span))))
+	}
+	if r.Intn(3) == 0 {
+		put(tgt.RandLine(r, []string{"badip", "badport", "noip", "noport"}[r.Intn(4)], base+uint32(r.Intn(span))))
+		put(tgt.RandLine(r, "valid", base+uint32(r.Intn(span))))
+	}
+	return ls, js
+}
+
+func mkFileCase(caseSeed int64) caseJ { return mkFileCaseOf(caseSeed, false) }
+
+// mkLongCase: a file with one over-long physical line through the same generator chains / sources / stages.
+func mkLongCase(caseSeed int64) caseJ { return mkFileCaseOf(caseSeed, true) }
+
+func mkFileCaseOf(caseSeed int64, long bool) caseJ {
 	tgt.Settle(baseGoroutines)
 	r := hlib.NewRand(caseSeed)
 	c := caseJ{Kind: "file", CaseSeed: caseSeed, Seed: r.Int63()}
+	if long {
+		c.Kind = "longfile"
+	}
 	c.Cmd = []string{"tcp", "udp", "generic", "icmp"}[r.Intn(4)]
 	switch c.Cmd {
 	case "icmp":
@@ -109,13 +199,18 @@ func mkFileCase(caseSeed int64) caseJ {
 		// too long lines are expensive: keep them rare
 		bad = bad[:len(bad)-1]
 	}
-	ls := tgt.RandFile(r, n, base, span, nbad, bad)
-	for _, l := range ls {
-		t := l.Text
-		if len(t) > 120 {
-			t = t[:120] + "..."
+	var ls []tgt.Line
+	if long {
+		ls, c.Lines = longFile(r, base, span)
+	} else {
+		ls = tgt.RandFile(r, n, base, span, nbad, bad)
+		for _, l := range ls {
+			t := l.Text
+			if len(t) > 120 {
+				t = t[:120] + "..."
+			}
+			c.Lines = append(c.Lines, lineJ{Class: l.Class, Text: t})
 		}
-		c.Lines = append(c.Lines, lineJ{Class: l.Class, Text: t})
 	}
 	c.LinesEnc = hex.EncodeToString(tgt.EncLines(ls))
 	content := tgt.FileText(ls)
@@ -457,7 +552,8 @@ func main() {
 	count := flag.Int("n", 600, "number of file cases")
 	nst := flag.Int("nstages", 200, "number of decorator cases")
 	nburst := flag.Int("nburst", 2, "number of error-burst cases (alternating generic / packet engine)")
-	one := flag.String("replay", "", "replay one case: file:<case seed> | stages:<case seed>")
+	nlong := flag.Int("nlong", 40, "number of file cases with one over-long physical line (64 KiB .. 5 x 64 KiB)")
+	one := flag.String("replay", "", "replay one case: file:<case seed> | longfile:<case seed> | stages:<case seed>")
 	flag.Parse()
 	baseGoroutines = runtime.NumGoroutine()
 	var err error
@@ -477,6 +573,8 @@ func main() {
 			w.Put(mkBurst(cs, strings.TrimPrefix(kind, "burst-")))
 		} else if kind == "stages" {
 			w.Put(mkStagesCase(cs))
+		} else if kind == "longfile" {
+			w.Put(mkLongCase(cs))
 		} else {
 			w.Put(mkFileCase(cs))
 		}
@@ -488,6 +586,10 @@ func main() {
 	}
 	for i := 0; i < *nst; i++ {
 		w.Put(mkStagesCase(r.Int63()))
+	}
+	rl := hlib.NewRand(*seed ^ 0x6c6f6e676c696e65) // its own stream: the other stages keep their cases
+	for i := 0; i < *nlong; i++ {
+		w.Put(mkLongCase(rl.Int63()))
 	}
 	for i := 0; i < *nburst; i++ {
 		w.Put(mkBurst(r.Int63(), []string{"generic", "packet"}[i%2]))
